@@ -272,7 +272,7 @@ impl Model for AcceptModel {
                             let active_tx = d.active_tx.clone();
                             let join = tokio::spawn(async move { session.run(global, active_tx).await });
                             // the daemon's OPEN as seen on the wire
-                            let mut conn = Conn { stream: Some(client), rx: bytes::BytesMut::new(), codec: bgp::PeerCodec::new(), join: Some(join), counter_rx: Default::default(), daemon_open: None, from: addr, limits: Vec::new() };
+                            let mut conn = Conn { stream: Some(client), rx: bytes::BytesMut::new(), codec: bgp::PeerCodec::new(), join: Some(join), counter_rx: Default::default(), daemon_open: None, open_notification: None, from: addr, limits: Vec::new() };
                             // an accepted connection must send its OPEN; a session that neither
                             // sends one nor closes is a verdict (no-open-sent), not a machinery error
                             let open = match tokio::time::timeout(Duration::from_secs(8), conn.read_msg()).await {
